@@ -121,8 +121,13 @@ def _compare_step(r, pre, post, res, pre0, post0, res0, world=None, world0=None)
         # (known finding KF-C10-estimator-accuracy)
         return "stop"
     if "skipped" in (res.status, res0.status) and res.status != res0.status:
-        # applicability of expand/contract style requests depends on the representation level
-        return twins.snapshot_diff(post0, post)
+        # applicability depends on the representation level and on bookkeeping a rejected call may
+        # legitimately have changed (it may have combined its operands): a physically neutral step that
+        # ran on one side only must leave the states equal; any other step means the two executions
+        # are different programs from here on
+        if r["do"] in twins.NEUTRAL:
+            return twins.snapshot_diff(post0, post)
+        return "stop"
     if res.status != res0.status:
         return f"status {res0.status}/{res0.exc} -> {res.status}/{res.exc}"
     if r["do"] == "povm" and world is not None:
